@@ -228,10 +228,17 @@ func judgeCLI(c *core.Ctx, legacy bool, doc string, files []cliFile, inject int)
 // genCLICase: a document and a list of patch files; valid patches are
 // generated against the state the previous ones produce, so that order matters.
 func genCLICase(c *core.Ctx, legacy bool) (string, []cliFile) {
-	prof := gen.Hostile().With(func(p *gen.Profile) { p.Keys = c01Keys })
+	// '%' in names and strings: the result must reach stdout verbatim, not through a format string
+	prof := gen.Hostile().With(func(p *gen.Profile) {
+		p.Keys = append(append([]string{}, c01Keys...), "100%", "%s")
+		p.Strings = append(append([]string{}, gen.HostileStrings...), "50%", "a%sb%d", "%!v(MISSING)", "%%", "%")
+	})
 	o := ref.Opts{NegIdx: true}
 	if legacy {
-		prof = gen.Plain().With(func(p *gen.Profile) { p.Keys = legacyKeys })
+		prof = gen.Plain().With(func(p *gen.Profile) {
+			p.Keys = append(append([]string{}, legacyKeys...), "100%")
+			p.Strings = append(append([]string{}, gen.PlainStrings...), "50%", "a%sb%d", "%")
+		})
 		o.Legacy = true
 	}
 	doc := prof.Root(c.R)
@@ -269,6 +276,9 @@ func genCLICase(c *core.Ctx, legacy bool) (string, []cliFile) {
 			files = append(files, cliFile{"missing", ""})
 		case k == 4:
 			files = append(files, cliFile{"directory", ""})
+		case k == 7:
+			// a patch without operations: still validates and re-encodes the document
+			files = append(files, cliFile{"valid", []string{"[]", "[ ]", " []\n", "[\n]"}[c.R.Intn(4)]})
 		default:
 			cfg := &SeqCfg{Prof: prof, MinOps: 1, MaxOps: 4, MissRate: 0, RootOK: !legacy, PlainTest: legacy}
 			kind := "valid"
@@ -335,6 +345,31 @@ func init() {
 			{Name: "legacy-command", Count: n(1200, 15000), Run: func(c *core.Ctx, idx int) {
 				doc, files := genCLICase(c, true)
 				judgeCLI(c, true, doc, files, -1)
+			}},
+			{Name: "empty-patches-and-odd-stdin", Count: n(600, 8000), Run: func(c *core.Ctx, idx int) {
+				// 0-3 patch files without operations, and a stdin that is ill-formed, not compact, a scalar, null,
+				// empty, or holds '%': the command must do exactly what folding Apply over the files does
+				legacy := idx%3 == 0
+				hp := gen.Hostile().With(func(p *gen.Profile) { p.WS = 40; p.Strings = append(append([]string{}, gen.HostileStrings...), "50%", "%d") })
+				var doc string
+				switch c.R.Intn(8) {
+				case 0:
+					doc = gen.Mutate(c.R, hp.Root(c.R), "")
+				case 1:
+					doc = []string{"", " ", "\n", "null", "7", `"50%"`, "this is not json", `{"a": 1,}`, `{"a":1} {"a":1}`, "[1,2", "\xff"}[c.R.Intn(11)]
+				case 2:
+					doc = hp.Root(c.R) + "\n"
+				case 3:
+					doc = " \r\n" + hp.Root(c.R)
+				default:
+					doc = hp.Root(c.R)
+				}
+				var files []cliFile
+				for k := c.R.Intn(4); k > 0; k-- {
+					files = append(files, cliFile{"valid", []string{"[]", "[ ]", " []\n", "[\n]"}[c.R.Intn(4)]})
+				}
+				judgeCLI(c, legacy, doc, files, -1)
+				c.Count("empty-patch-runs")
 			}},
 			{Name: "order-permutations", Count: n(600, 8000), Run: func(c *core.Ctx, idx int) {
 				// three valid patches, every order; different orders must give what the library gives for that order
